@@ -471,7 +471,10 @@ def groups_for(tag, tier):
     sp_txt = "every single split point 0..=len" if thorough else \
         "single split points: all for len <= block+1, else near block boundaries / ends / every 16th"
     bl = boundary_lens(tag)
-    lens = list(range(maxlen + 1)) if thorough else bl
+    # thorough: every length 0..=2*block+9 for blocks/rates up to 72 bytes; for larger blocks every
+    # length 0..=block+9 plus the boundary lengths up to 2*block+9 (cost: see NOTES_C17.md)
+    full_to = maxlen if B <= 72 else B + 9
+    lens = sorted(set(range(full_to + 1)) | set(bl)) if thorough else bl
     G = []
     few = [0, 1, B - 1, B, B + 1] if tag not in H.SHA2 else [0, 1, B - 9, B - 8, B - 1, B, B + 1] \
         if B == 64 else [0, 1, B - 17, B - 16, B - 1, B, B + 1]
@@ -525,7 +528,7 @@ def groups_for(tag, tier):
                   [sh_xclone(tag, a, b, c, o1, o2, 33) for a in (0, 1, B - 1, B) for b in (0, 1, B) for c in (0, 2)
                    for (o1, o2) in ((0, 10), (B - 1, 2), (B, B))]))
         if thorough:
-            for L in (B - 1, B, B + 1, B + 9):
+            for L in ((B + 1,) if tag == "shake128" else ()):
                 G.append(("%s.split2[len=%d]" % (tag, L), "every pair of input split points",
                           [sh_x(tag, s1, s2 - s1, 16, 0, 0, "split2") for s1 in range(L + 1) for s2 in range(s1, L + 1)]))
         return G
@@ -544,10 +547,12 @@ def groups_for(tag, tier):
               [sh_alias(tag, a) for a in few + [2 * B + 9]]))
     if thorough:
         two = None
-        if tag in ("sha256", "sha3_512"):
+        if tag == "sha256":
             two = list(range(B + 10))
-        elif tag in ("sha512", "sha3_256"):
-            two = [B - 1, B, B + 1, B + 9]
+        elif tag in ("sha512", "sha3_512"):
+            two = [B, B + 9]
+        elif tag == "sha3_256":
+            two = [B + 1]
         for L in two or []:
             G.append(("%s.split2[len=%d]" % (tag, L), "every pair of split points",
                       [sh_upd3(tag, s1, s2 - s1, L - s2, "split2") for s1 in range(L + 1) for s2 in range(s1, L + 1)]))
@@ -688,42 +693,48 @@ def decide_shape(ctx, sh, timeout, validate=True):
                 continue
             pairs.append((x, y, w))
     res = dict(hooked=set(ex.c17_hooked), nuf=len(ex.c17_hooked))
-    # translator validation + native-vs-reference on one sample (always when a solver is needed)
+    # translator validation on one sampled message: DAG (compression function interpreted by the
+    # reference implementation) == native driver.  Always done when a solver is needed.
+    sample_ok = None
     if validate or pairs:
         m, k = sample_bytes(r, nm, 0), sample_bytes(r, 32, 0)
         env = {"m%d" % i: m[i] for i in range(nm)}
         env.update({"k%d" % i: k[i] for i in range(32)})
-        ok, nat, rexp = replay_shape(built, sh, m, k)
+        sample_ok, nat, rexp = replay_shape(built, sh, m, k)
         for name in outs:
             val = T.evaluate(outs[name], env)
             if list(val) != list(nat[name]):
                 raise MachineryError("translator validation failed for %s/%s: dag=%r native=%r"
                                      % (sh.label(), name, val[:8], list(nat[name])[:8]))
-        if not ok:
-            return dict(res, verdict="viol", how="replay", secs=time.time() - t0,
-                        detail=violation_detail(sh, m, k, nat, rexp, "native run of a sampled message differs from the reference digest"))
     if not pairs:
+        if sample_ok is False:
+            raise MachineryError("terms identical to the specification but native != reference for %s" % sh.label())
         return dict(res, verdict="ok", how="syntactic", secs=time.time() - t0)
     em = BVEmitter()
     diffs = ["(distinct %s %s)" % (em.ref(x, w), em.ref(y, w)) for x, y, w in pairs]
     goal = diffs[0] if len(diffs) == 1 else "(or %s)" % " ".join(diffs)
     v, mod, dt = run_solver(em.script([goal], logic="QF_UFBV"), "z3", timeout)
     if v == "unsat":
+        if sample_ok is False:
+            raise MachineryError("proved equal to the specification but native != reference for %s" % sh.label())
         return dict(res, verdict="ok", how="z3-ufbv", secs=time.time() - t0, solver_s=dt)
+    tries = []
     if v == "sat":
         model = parse_model(mod)
-        m = [model.get("m%d" % i, 0) for i in range(nm)]
-        k = [model.get("k%d" % i, 0) for i in range(32)]
-        tries = [(m, k, "z3-ufbv model")] + [(sample_bytes(r, nm, it), sample_bytes(r, 32, it), "boundary replay after abstract model")
-                                            for it in range(1, 6)]
-        for m, k, how in tries:
-            ok, nat, rexp = replay_shape(built, sh, m, k)
-            if not ok:
-                return dict(res, verdict="viol", how="z3-ufbv+replay", secs=time.time() - t0, solver_s=dt,
-                            detail=violation_detail(sh, m, k, nat, rexp, how))
-        return dict(res, verdict="unknown", how="z3-ufbv", secs=time.time() - t0, solver_s=dt,
-                    detail="model under the uninterpreted compression function does not reproduce natively")
-    return dict(res, verdict="unknown", how="z3-ufbv", secs=time.time() - t0, solver_s=dt, detail="solver: " + v)
+        tries.append(([model.get("m%d" % i, 0) for i in range(nm)], [model.get("k%d" % i, 0) for i in range(32)],
+                      "z3-ufbv model (compression function uninterpreted), replayed natively"))
+        after = "abstract model"
+    else:
+        after = "solver " + v
+    tries += [(sample_bytes(r, nm, it), sample_bytes(r, 32, it), "boundary replay after " + after) for it in range(0, 6)]
+    for m, k, how in tries:
+        ok, nat, rexp = replay_shape(built, sh, m, k)
+        if not ok:
+            return dict(res, verdict="viol", how="z3-ufbv+replay", secs=time.time() - t0, solver_s=dt,
+                        detail=violation_detail(sh, m, k, nat, rexp, how))
+    return dict(res, verdict="unknown", how="z3-ufbv", secs=time.time() - t0, solver_s=dt,
+                detail=("model under the uninterpreted compression function does not reproduce natively"
+                        if v == "sat" else "solver: " + v))
 
 
 def _short_callee(c):
@@ -847,6 +858,23 @@ def sweep(impl_outs, spec_outs, trace, envs, widths, timeout, nthreads, max_iter
             used_impl.add(it.id)
             matches.append(("%s#%d" % (lab, j), st, it, neg, hard))
     cache = {}
+    sat_models = []
+
+    def from_models():
+        """a failed lemma whose variables are real inputs gives a candidate input: evaluate both
+        DAGs on it (no solver); a difference is a genuine counterexample candidate"""
+        for mod in sat_models:
+            mv = parse_model(mod)
+            upd = {k: v for k, v in mv.items() if k in envs[0]}
+            if not upd:
+                continue
+            env = dict(envs[0])
+            env.update(upd)
+            a = T.evaluate(list(impl_outs), env)
+            b = T.evaluate(list(spec_outs), env)
+            if list(a) != list(b):
+                return env
+        return None
     stats = dict(lemmas=sum(1 for m in matches if m[2] is not None), nomatch=nomatch, shared=shared, queries=0,
                  solver_s=0.0, maxlemma=0.0, dropped=[], syntactic=0)
     order = T.topo(spec_roots + [x for x in impl_outs if isinstance(x, T.Term)])
@@ -888,7 +916,7 @@ def sweep(impl_outs, spec_outs, trace, envs, widths, timeout, nthreads, max_iter
                 jobs.append((lab, None))
                 continue
             em = BVEmitter()
-            jobs.append((lab, em.script(["(distinct %s %s)" % (em.ref(x, st.w), em.ref(y, st.w))], get_model=False)))
+            jobs.append((lab, em.script(["(distinct %s %s)" % (em.ref(x, st.w), em.ref(y, st.w))])))
         em = BVEmitter()
         diffs = []
         for x, y, w in zip(spec_outs, impl_outs, widths):
@@ -905,7 +933,7 @@ def sweep(impl_outs, spec_outs, trace, envs, widths, timeout, nthreads, max_iter
             if script in cache:
                 return (lab,) + cache[script][:1] + (0.0,) + cache[script][2:]
             v, mod, dt = run_solver(script, "z3", timeout)
-            cache[script] = (v, dt, mod if lab == "final" else "")
+            cache[script] = (v, dt, mod if (lab == "final" or v == "sat") else "")
             return lab, v, dt, mod
         with ThreadPoolExecutor(max_workers=nthreads) as pool:
             results = list(pool.map(solve, jobs))
@@ -919,6 +947,8 @@ def sweep(impl_outs, spec_outs, trace, envs, widths, timeout, nthreads, max_iter
                 stats["queries"] += 1
                 stats["solver_s"] += dt
                 stats["maxlemma"] = max(stats["maxlemma"], dt)
+            if v == "sat" and mod and len(sat_models) < 12:
+                sat_models.append(mod)
             if lab == "final":
                 fin = (v, mod)
             elif v != "unsat":
@@ -927,10 +957,17 @@ def sweep(impl_outs, spec_outs, trace, envs, widths, timeout, nthreads, max_iter
             stats.update(status={"unsat": "proved", "sat": "sat"}.get(fin[0], "unknown"), final=fin[0],
                          cuts=len(cutvar), merged=len(implmap), syntactic=nsyn, iterations=iteration + 1,
                          seconds=time.time() - t0)
+            if stats["status"] != "proved":
+                env = from_models()
+                if env is not None:
+                    stats.update(status="differs", env=env, found_by="model of a failed lemma evaluated on both DAGs")
             return stats
         stats["dropped"] += sorted(failed)
         live = [m for m in live if m[0] not in failed]
     stats.update(status="unknown", final="lemmas kept failing", seconds=time.time() - t0)
+    env = from_models()
+    if env is not None:
+        stats.update(status="differs", env=env, found_by="model of a failed lemma evaluated on both DAGs")
     return stats
 
 
@@ -1044,7 +1081,14 @@ def compress_job(ctx, kind, fname, timeout, nthreads, nsim=3, index=0):
         if res["status"] == "proved":
             return ob.ok(how, time.time() - t0, res["queries"] + 1)
         if res["status"] == "differs":
-            return ob.unknown("simulation difference not reproduced natively (translator?)", how, time.time() - t0)
+            env = res["env"]
+            nat, ref = list(native(env)), list(refc(env))
+            if nat != ref:
+                return ob.fail({"key": "%s.compress" % kind, "function": fname, "inputs": {k: hex(v) for k, v in env.items()},
+                                "native": [hex(x) for x in nat], "expected": [hex(x) for x in ref],
+                                "found_by": res.get("found_by", "simulation") + "; replayed natively"}, "z3-bv+replay",
+                               time.time() - t0, res.get("queries", 0))
+            return ob.unknown("DAG difference does not reproduce natively (translator?)", how, time.time() - t0)
         # sat on the abstracted final goal, or unknown: hunt natively before giving up
         for it in range(200):
             env = mkenv(it + 20)
@@ -1299,8 +1343,8 @@ def run(tier, only=None):
         "C17", tier, obs, t0,
         functions_encoded=funcs + ["drivers: new/update/digest/finalize*/reset/clone/hash of " + ", ".join(tags)],
         bounds={
-            "message": "all byte values; lengths 0..=2*block+9 (%s)" % ("every length" if thorough else "boundary lengths: " + "; ".join("%s %s" % (t, boundary_lens(t)) for t in tags)),
-            "splits": ("every single split point for each listed length" if thorough else "single split points: all for len <= block+1, otherwise those near block boundaries/ends and every 16th") + ("; every pair of split points for lengths <= block+9 on sha256, sha3_512, blake2s and for four boundary lengths on sha512, sha3_256, shake128/256" if thorough else ""),
+            "message": "all byte values; lengths 0..=2*block+9 (%s)" % ("every length for block/rate <= 72 bytes, else every length 0..=block+9 and the boundary lengths above" if thorough else "boundary lengths: " + "; ".join("%s %s" % (t, boundary_lens(t)) for t in tags)),
+            "splits": ("every single split point for each listed length" if thorough else "single split points: all for len <= block+1, otherwise those near block boundaries/ends and every 16th") + ("; every pair of split points for all lengths <= block+9 on sha256 and blake2s, for lengths block and block+9 on sha512 and sha3_512, for length rate+1 on sha3_256 and shake128" if thorough else ""),
             "sequences": "finalize_reset/reset/clone sequences over boundary length tuples (see group bounds)",
             "shake": "output split at every point 0..=rate+8 of rate+9 bytes; three-way splits around the rate; up to 2*rate+9 output bytes",
             "blake2s": "key length 0..=32 x output length 1..=32 on message lengths %s; keyed reuse/reset for key lengths %s" % (
